@@ -44,6 +44,17 @@ def instances(tier, seed):
             if op == "hop0" and len(cnt) >= 5:
                 continue      # bond operators on 5-node trees exceed the worker's memory cap (outside the bound)
             out.append(dict(op=op, kinds=kinds, parents=list(par), counts=list(cnt), label="%s parents=%s counts=%s" % (op, list(par), list(cnt)), key=op))
+    # variable mean field: the time derivative handed to the ODE solver (time_derivative_vmf is a pure function of state and operator)
+    vm = [((0,), (1, 1), 2, "real"), ((0, 0), (1, 1, 1), 1, "real"), ((0, 1), (1, 1, 1), 1, "real")]
+    if tier == "thorough":
+        vm += [((0,), (1, 1), 2, "cplx"), ((0, 0), (1, 1, 1), 2, "real"), ((0, 0), (0, 1, 1), 1, "real"), ((0,), (2, 1), 1, "real")]
+    for par, cnt, ob, kind in vm:
+        out.append(dict(op="vmf", kinds=kinds, parents=list(par), counts=list(cnt), obond=ob, kind=kind, run_opts=dict(max_paths=50, budget_s=8.0),
+                        label="tree vmf derivative parents=%s counts=%s operator bond %d %s state" % (list(par), list(cnt), ob, kind), key="vmf"))
+    for par, cnt in (((0, 0), (1, 1, 1)), ((0, 1), (1, 1, 1)), ((0, 0, 1), (1, 1, 1, 1))):
+        for kind in ("real", "cplx"):
+            out.append(dict(op="vmf", kinds=("s", "s", "s", "s")[:sum(cnt)], parents=list(par), counts=list(cnt), obond=2, kind=kind, concrete=True,
+                            label="[float build] tree vmf derivative parents=%s counts=%s operator bond 2 %s state (real LAPACK; reachability witness)" % (list(par), list(cnt), kind), key="vmf"))
     # (parents, counts, operator bond dimension): four nested operator applications are degree-4 polynomials in every operator entry
     pcs = [((0,), (2, 1), 2), ((0,), (1, 1), 2), ((0, 0), (1, 1, 1), 1), ((0, 1), (1, 1, 1), 1), ((0, 0), (0, 1, 1), 1)]
     if tier == "thorough":
@@ -86,6 +97,155 @@ class IdentityTreeCompression:
         return False
 
 
+class _SN:
+    pass
+
+
+def _shadow(ttns):
+    nodes = ttns.node_list
+    sh = []
+    for n in nodes:
+        s_ = _SN()
+        s_.tensor = np.asarray(n.tensor)
+        sh.append(s_)
+    pos = {id(n): i for i, n in enumerate(nodes)}
+    for s_, n in zip(sh, nodes):
+        s_.children = [sh[pos[id(c)]] for c in n.children]
+    return sh
+
+
+def _preorder(node, out):
+    out.append(node)
+    for c in node.children:
+        _preorder(c, out)
+    return out
+
+
+def _dense_shadow(root):
+    t = _SN()
+    t.node_list = _preorder(root, [])
+    return treelib._dense(t, False), t.node_list
+
+
+def h_vmf(ctx, P):
+    """time_derivative_vmf(state, operator) against the gauge-fixed TDVP equations written with dense blocks (formula validated numerically against the tangent-space
+    projection of O psi on canonical trees):  root: F_root;  other nodes: (1 - A A^h) F_i (S_i^-1)^T,  F_i = J_i^h (O psi) with J_i the dense Jacobian of psi with
+    respect to node i,  S_i[p', p] = sum_x conj(E[x, p']) E[x, p] the overlap of the rest of the tree seen through the bond to the parent, inverse = u diag(1/w') u^h
+    with w' = w + eps exp(-w/eps) from the decomposition the code itself requested (eigh by contract, exp uninterpreted)."""
+    treelib.ensure_print_tree()
+    from renormalizer.tn import time_evolution as te
+    from symnum import stubs
+    cplx = P["kind"] == "cplx"
+    tree, nodes = treelib.build_basis_tree(P["parents"], P["counts"], tuple(P["kinds"]))
+    a = treelib.build_ttns(ctx, "a", tree, 2, kind=P["kind"])
+    o = c11.sym_ttno(ctx, "o", tree, P.get("obond", 2))
+    Od = treelib.dense_ttno(o)
+    eps = a.evolve_config.reg_epsilon
+    eigs = []
+    undo = None
+    cur_scipy = te.scipy
+    if ctx.symbolic:
+        contract, undo = stubs.lapack_contract(ctx, modules=("renormalizer.mps.svd_qn", "renormalizer.tn.time_evolution"), cplx=cplx)
+        inner = te.scipy.linalg.eigh
+        proxied = te.scipy
+    else:
+        import scipy.linalg as _sl
+        inner = _sl.eigh
+        proxied = cur_scipy
+
+    class _LA:
+        def __getattr__(self, item):
+            return getattr(proxied.linalg, item)
+
+        @staticmethod
+        def eigh(m, *aa, **k):
+            w, u = inner(m, *aa, **k)
+            eigs.append((np.array(np.asarray(m)), w, u))
+            return w, u
+
+    class _SP:
+        linalg = _LA()
+
+        def __getattr__(self, item):
+            return getattr(proxied, item)
+    te.scipy = _SP()
+    try:
+        got = np.asarray(te.time_derivative_vmf(a, o))
+    finally:
+        te.scipy = cur_scipy
+        if undo:
+            undo()
+        te.scipy = cur_scipy
+    odt = object if ctx.symbolic else complex
+    psi = treelib.dense_ttns(a)
+    Opsi = Od.dot(psi)
+    tn = a.node_list
+    refs, missing = [], []
+    for i, n in enumerate(tn):
+        A = np.asarray(n.tensor)
+        cols = []
+        for k in range(A.size):
+            sh = _shadow(a)
+            e = np.zeros(A.size, dtype=int)
+            e[k] = 1
+            sh[i].tensor = e.reshape(A.shape)
+            cols.append(_dense_shadow(sh[0])[0])
+        J = np.array(cols, dtype=odt).T
+        F = np.conj(J).T.dot(Opsi).reshape(-1, A.shape[-1])
+        if n.parent is None:
+            refs.append(F.ravel())
+            continue
+        p_ = A.shape[-1]
+        sh = _shadow(a)
+        sh[i].tensor = np.eye(p_, dtype=int).reshape(p_, p_)
+        sh[i].children = []
+        E, lst = _dense_shadow(sh[0])
+        dims, where = [], None
+        for s_ in lst:
+            t = s_.tensor
+            for q in range(t.ndim - len(s_.children) - 1):
+                if s_ is sh[i]:
+                    where = len(dims)
+                dims.append(t.shape[len(s_.children) + q])
+        E = np.moveaxis(np.asarray(E).reshape(dims), where, -1).reshape(-1, p_)
+        S = np.conj(E).T.dot(E)
+        found = None
+        for m, w, u in eigs:
+            if m.shape != S.shape:
+                continue
+            same = ctx.eq(m, S)
+            if (getattr(same, "op", "") == "true") if ctx.symbolic else bool(same):
+                found = (w, u, False)
+                break
+            same = ctx.eq(m, S.T)
+            if (getattr(same, "op", "") == "true") if ctx.symbolic else bool(same):
+                found = (w, u, True)
+                break
+        if found is None:
+            missing.append(i)
+            refs.append(None)
+            continue
+        w, u, transposed = found
+        w = np.asarray(w)
+        u = np.asarray(u)
+        wreg = w + eps * np.exp(-w / eps)
+        Sinv = sum((np.outer(u[:, k], np.conj(u[:, k])) * (1 / wreg[k]) for k in range(len(wreg))), np.zeros(S.shape, dtype=odt))
+        if transposed:
+            Sinv = Sinv.T
+        Am = A.reshape(-1, p_)
+        Pm = Am.dot(np.conj(Am).T)
+        refs.append((np.eye(Pm.shape[0], dtype=int) - Pm).dot(F).dot(Sinv.T).ravel())
+    ctx.check("tree vmf: for every non-root node the matrix handed to eigh is the overlap of the rest of the tree seen through the bond to the parent", not missing, info=str(missing))
+    conds, off = [], 0
+    for i, n in enumerate(tn):
+        sz = int(np.asarray(n.tensor).size)
+        if refs[i] is not None:
+            conds.append(ctx.eq(got[off:off + sz], refs[i]))
+        off += sz
+    ctx.check("tree vmf: derivative vector has one entry per tensor entry, nodes in node_list order", off == len(got))
+    ctx.check("tree vmf: derivative of every node = (1 - A A^h) F_i (S_i^-1)^T (root: F), regularised inverse as documented", ctx.all(conds))
+
+
 def make_harness(P):
     op = P["op"]
 
@@ -98,6 +258,8 @@ def make_harness(P):
             return h_pc_chain(ctx)
         if op == "sweep":
             return h_sweep(ctx, P)
+        if op == "vmf":
+            return h_vmf(ctx, P)
         tree, nodes = treelib.build_basis_tree(P["parents"], P["counts"], tuple(P["kinds"]))
         a = treelib.build_ttns(ctx, "a", tree, 2)
         o = c11.sym_ttno(ctx, "o", tree, P.get("obond", 2))
@@ -480,13 +642,18 @@ def main(tier, seed):
                     "chain's Taylor(4) step on a linear tree; hop_expr1 / hop_expr2 / hop_expr0 applied to arbitrary coefficient tensors = projections of H psi (every node of a "
                     "strided subset of all trees with <= 4 (5) nodes, 0-2 basis sets per node, dummy nodes); incremental TTNEnviron updates = fresh environments; the real one-site and two-site projector-splitting sweeps on 5 (10) trees with "
                     "the local Krylov propagator replaced by an arbitrary-output stub: effective operator at every local step = projection of H on the current state, time-step "
-                    "bookkeeping (+-tau/2; tau per node, -tau per bond), identity propagator => state unchanged.",
-        assumptions=["NOT covered (DESIGN.md section 2): accuracy, norm/energy conservation of evolve_tdvp_ps / ps2 / vmf (Krylov, solve_ivp, regularised inversion are float iterations)",
+                    "bookkeeping (+-tau/2; tau per node, -tau per bond), identity propagator => state unchanged. Variable mean field: time_derivative_vmf(state, operator) on 2-3 node "
+                    "trees (chain, star, dummy root, two sets on a node) with eigh by contract and exp uninterpreted: derivative of every node = (1 - A A^h) F_i (S_i^-1)^T with dense "
+                    "references (F_i = J_i^h O psi, S_i = overlap of the rest of the tree through the parent bond), the matrix handed to eigh = that overlap; float-build twins "
+                    "(3-4 nodes, real LAPACK) as reachability witnesses.",
+        assumptions=["variable mean field: the derivative function only (the ODE integration is scipy's solve_ivp); the equations are compared as polynomial identities on an arbitrary (not "
+                     "necessarily canonical) state; a violated equation is reported through the float-build twins (z3 cannot satisfy the eigen-decomposition contracts)",
+                     "NOT covered (DESIGN.md section 2): accuracy, norm/energy conservation of evolve_tdvp_ps / ps2 / vmf (Krylov, solve_ivp, regularised inversion are float iterations)",
                      "symmetry-sector conservation of tree operations rests on the label handling checked in C11/C06 (zero labels on the symbolic trees here)",
                      "canonicalise/compress identity stubs inside the P&C harness (C11)", "expm_krylov replaced by a stub returning an arbitrary vector (or its input) inside the sweep harness; "
                      "QR/SVD by their contracts; check_canonical skipped (obligations do not depend on the gauge)"],
         trusted_base=["z3 5.1", "NumPy object loops / np.einsum oracle", "opt_einsum path execution", "LAPACK contract stubs"],
-        functions=[te.evolve_prop_and_compress_tdrk4, tr.TTNS.evolve, he.hop_expr0, he.hop_expr1, he.hop_expr2, tr.TTNEnviron.update_1bond, tr.TTNEnviron.update_1site,
+        functions=[te.time_derivative_vmf, te.regularized_inversion, te.evolve_prop_and_compress_tdrk4, tr.TTNS.evolve, he.hop_expr0, he.hop_expr1, he.hop_expr2, tr.TTNEnviron.update_1bond, tr.TTNEnviron.update_1site,
                    tr.TTNEnviron.update_2site, te.evolve_tdvp_ps, te.evolve_tdvp_ps2, te._tdvp_ps_forward, te._tdvp_ps_backward, te._tdvp_ps2_recursion_forward,
                    te._tdvp_ps2_recursion_backward, te.evolve_1site, te.evolve_0site, te.evolve_2site, tr.TTNS.update_2site, tr.TTNS.merge_with_parent])
 
